@@ -368,6 +368,12 @@ def run_obligation(prop, tier, tu, o, cfg, unwind_hints, seed, wd):
             if not use_trace:
                 use_trace = True; continue
             break
+        # a concrete failure (harness assertion or built-in check) found on paths inside the current bounds is a real
+        # counterexample candidate whatever the loop bounds: go and try to confirm it instead of raising bounds (an
+        # out-of-bounds read typically makes the scanning loop itself unbounded, so its bound could never be satisfied)
+        others_now = [p for p in props if p["status"] == "FAILURE" and ".unwind." not in p["name"] and not p["desc"].startswith("VPCOVER")]
+        if others_now and use_trace:
+            r["unwind_capped"] = "unwinding assertions still failing for %s" % ",".join(p["name"] for p in uw[:4]); break
         grew = False
         for p in uw:
             m = re.match(r"(.*)\.unwind\.(\d+)$", p["name"])
